@@ -1,9 +1,9 @@
 (* C03 — Order lifecycle: one operation in flight, legal transitions, finality (live half: BetfairOrder guards, BetfairExecution
-   handlers, process_current_orders).  Statements only.  The simulated half is checked on the simulation model by correspondence and an
-   independent transition checker (harness/propcheck.py c03). *)
+   handlers, process_current_orders; simulated half: whole runs of the simulation loop, Proofs/SimLifeP.v).  Statements only.  The simulated
+   half is also checked on the simulation model by correspondence and an independent transition checker (harness/propcheck.py c03). *)
 From Coq Require Import ZArith List Bool.
 From V Require Import Model.Num Model.Status Model.Live Gen.StatusC Proofs.LiveP.
-From V Require Model.Sim Model.SimLoop Proofs.SimResetP.
+From V Require Model.Sim Model.SimLoop Model.SimGuard Model.SimCases Model.Examples Proofs.SimResetP Proofs.SimLinkP Proofs.SimAwaitP Proofs.SimLifeP.
 From V Require Import Model.Guards Proofs.GuardsP.
 Open Scope Z_scope.
 
@@ -76,6 +76,61 @@ Theorem C03_sim_answer_log : forall cs now o,
   (Sim.so_status o <> SExecComplete /\ Sim.so_log (SimLoop.reset_order cs now o) = Sim.so_log o ++ [SExecutable]).
 Proof. exact SimResetP.reset_order_log. Qed.
 Print Assumptions C03_sim_answer_log.
+
+(* ---- simulation, WHOLE RUNS (Proofs/SimLifeP.v; induction over arbitrary event lists, any number of markets, strategies, orders) ----
+   Hypotheses, all decidable from the scenario alone (Model/SimGuard.v; evaluated on the generated scenarios of harness/c03.py): the configuration
+   matches no Pending / Execution complete order (cfg_ok_b), the run starts from markets without orders (initial_b), books are in the domain of
+   the whole-run development (event_b2: no starting-price reconciliation, no removed runner, non-negative bet delay; requests well-formed),
+   sizes are the ones the order validation control accepts (event_b3: strictly positive), each (market, name) is placed once (keys_ok_b).
+   (1) every status an order has passed through follows the documented lifecycle and its status is the last entry of the log *)
+Theorem C03_sim_run_lifecycle_legal : forall tb cf n sc es s,
+  SimGuard.cfg_ok_b cf = true -> SimGuard.initial_b s = true -> forallb (SimGuard.event_b2 sc n) es = true -> forallb (SimGuard.event_b3 sc n) es = true ->
+  SimGuard.keys_ok_b sc n es = true -> forall m o,
+  In m (SimLoop.s_markets (fold_left (SimLoop.step tb cf n sc) es s)) -> In o (SimLoop.mk_orders m) ->
+  SimGuard.lifecycle_path SNone (Sim.so_log o) = true /\ last (Sim.so_log o) SNone = Sim.so_status o.
+Proof. exact SimLifeP.run_lifecycle_legal_static. Qed.
+Print Assumptions C03_sim_run_lifecycle_legal.
+(* (2) finality: whatever follows Execution complete in a status log is Execution complete, and the order is complete now *)
+Theorem C03_sim_run_complete_is_final : forall tb cf n sc es s,
+  SimGuard.cfg_ok_b cf = true -> SimGuard.initial_b s = true -> forallb (SimGuard.event_b2 sc n) es = true -> forallb (SimGuard.event_b3 sc n) es = true ->
+  SimGuard.keys_ok_b sc n es = true -> forall m o l1 l2,
+  In m (SimLoop.s_markets (fold_left (SimLoop.step tb cf n sc) es s)) -> In o (SimLoop.mk_orders m) -> Sim.so_log o = l1 ++ SExecComplete :: l2 ->
+  Forall (eq SExecComplete) l2 /\ Sim.so_status o = SExecComplete.
+Proof. exact SimLifeP.run_complete_is_final_static. Qed.
+Print Assumptions C03_sim_run_complete_is_final.
+(* (3) at most one operation per order is outstanding: no two packages of the queue name the same order *)
+Theorem C03_sim_run_one_operation_outstanding : forall tb cf n sc es s,
+  SimGuard.cfg_ok_b cf = true -> SimGuard.initial_b s = true -> forallb (SimGuard.event_b2 sc n) es = true -> forallb (SimGuard.event_b3 sc n) es = true ->
+  SimGuard.keys_ok_b sc n es = true ->
+  NoDup (map SimLinkP.pkey (SimLoop.s_queue (fold_left (SimLoop.step tb cf n sc) es s))).
+Proof. exact SimLifeP.run_one_operation_outstanding_static. Qed.
+Print Assumptions C03_sim_run_one_operation_outstanding.
+(* (4) a cancel / update / replace in flight names an order that rests at the exchange with a known bet id and is in exactly that transient
+   status - or has completed while the request was in flight *)
+Theorem C03_sim_run_request_in_flight : forall tb cf n sc es s,
+  SimGuard.cfg_ok_b cf = true -> SimGuard.initial_b s = true -> forallb (SimGuard.event_b2 sc n) es = true -> forallb (SimGuard.event_b3 sc n) es = true ->
+  SimGuard.keys_ok_b sc n es = true -> forall p m o,
+  let sf := fold_left (SimLoop.step tb cf n sc) es s in
+  In p (SimLoop.s_queue sf) -> SimLoop.pk_kind p <> SimLoop.KPlace -> In m (SimLoop.s_markets sf) -> SimLoop.mk_id m = SimLoop.pk_market p ->
+  In o (SimLoop.mk_orders m) -> Sim.so_name o = SimLoop.pk_order p ->
+  Sim.so_bet o <> None /\ (SimAwaitP.awaits (Sim.so_status o) (SimLoop.pk_kind p) \/ Sim.so_status o = SExecComplete).
+Proof. exact SimLifeP.run_request_in_flight_static. Qed.
+Print Assumptions C03_sim_run_request_in_flight.
+(* non-vacuity: a run that satisfies the five hypotheses, with a cancel in flight after four updates and completed after five *)
+Definition c03_bk (pt : Z) : Sim.book := Examples.xbook pt Sim.MOpen 1 [Examples.xrunner 1 Sim.RActive None [(20000, 300)] [(21000, 500)] []].
+Definition c03_script : SimLoop.script :=
+  SimCases.script_of [(0, 1, 0, [SimLoop.APlace 1 1 Back (SimLoop.OLimit 20600 1000 Sim.PLapse false None) None]);
+                      (0, 1, 2, [SimLoop.ACancel 1 None]); (0, 1, 3, [SimLoop.AUpdate 1 Sim.PPersist])].
+Definition c03_ev (i pt : Z) : SimLoop.event := {| SimLoop.ev_market := 1; SimLoop.ev_idx := i; SimLoop.ev_book := c03_bk pt |}.
+Definition c03_init : SimLoop.sim := SimCases.sim0 [SimCases.mkmarket 1 Examples.std_static].
+Definition c03_es := [c03_ev 0 1000; c03_ev 1 1200; c03_ev 2 1400; c03_ev 3 1500; c03_ev 4 1600].
+Example C03_sim_run_example :
+  let view s := (map (fun m => map (fun o => (Sim.so_name o, Sim.so_status o, Sim.so_log o)) (SimLoop.mk_orders m)) (SimLoop.s_markets s), map SimLoop.pk_kind (SimLoop.s_queue s)) in
+  SimGuard.cfg_ok_b Examples.std_cfg = true /\ SimGuard.initial_b c03_init = true /\ forallb (SimGuard.event_b2 c03_script 1) c03_es = true /\
+  forallb (SimGuard.event_b3 c03_script 1) c03_es = true /\ SimGuard.keys_ok_b c03_script 1 c03_es = true /\
+  view (fold_left (SimLoop.step tb_up Examples.std_cfg 1 c03_script) (firstn 4 c03_es) c03_init) = ([[(1, SCancelling, [SPending; SExecutable; SCancelling])]], [SimLoop.KCancel]) /\
+  view (fold_left (SimLoop.step tb_up Examples.std_cfg 1 c03_script) c03_es c03_init) = ([[(1, SExecComplete, [SPending; SExecutable; SCancelling; SExecComplete])]], []).
+Proof. vm_compute. repeat split; reflexivity. Qed.
 
 (* non-vacuity *)
 Example C03_example : let s := lrun (lstate0 COMPLETE_STATUS) [LPlace 0 0 0 101 500 200 false; LResponsePlace [0] [PSuccess 0 (Some 7001) 0]; LReq 0 0 0] in
